@@ -131,9 +131,29 @@ pub fn observe(c: &Case) -> Result<Obs, String> {
           }
         }
         None => {
+          // user code in the callback: while unsubscribe() is in progress it pushes one more
+          // item into the (hot) source; finalize runs after the teardown, so nobody may see it
+          if !c.create_src && c.src_kind == 0 {
+            let (hl, ht, threads) = (w.l.hot[0].clone(), w.t.hot[0].clone(), c.flavor == Flavor::Threads);
+            for fin in [FIN, FIN2] {
+              let (hl, ht) = (hl.clone(), ht.clone());
+              set_local_cb(
+                fin,
+                std::rc::Rc::new(move |_: &N| {
+                  use rxrust::observer::Observer;
+                  if threads {
+                    ht.clone().next(V::I(999));
+                  } else {
+                    hl.clone().next(V::I(999));
+                  }
+                }),
+              );
+            }
+          }
           w.log.mark(0, "unsub_call", 0);
           w.unsubscribe(0);
           w.log.mark(0, "unsub_ret", 0);
+          clear_local_cbs();
         }
       }
     }
@@ -178,6 +198,14 @@ fn judge_fin(c: &Case, o: &Obs, fin: u32) -> Option<(String, serde_json::Value)>
   let show = |why: &str| json!({"why": why, "finalize_calls": fins.len(), "history": format!("{:?}", c.history)});
   if fins.len() > 1 {
     return Some(("finalize_twice".into(), show("the callback ran more than once")));
+  }
+  // the callback marks the end of the subscription: nothing reaches the subscriber afterwards
+  if c.downstream.is_none() {
+    if let Some(f) = fins.first() {
+      if let Some(late) = o.evs.iter().find(|e| e.id == 1 && e.seq > *f && matches!(e.k, K::N(_))) {
+        return Some(("delivery_after_finalize".into(), show(&format!("{:?} was delivered to the subscriber after the callback had run", late.k))));
+      }
+    }
   }
   match (first, fins.first()) {
     (None, Some(_)) => Some(("finalize_before_end".into(), show("the callback ran although the subscription was neither completed, failed nor unsubscribed"))),
@@ -305,6 +333,8 @@ pub fn run(cfg: &Cfg, rep: &mut Report) {
   let n = cfg.n(12_000, 600_000);
   super::thr::systematic_families(cfg, rep, 0xC15A, &[10, 10, 10], &|_, _| {}, &|o, _| super::thr::finalize_oracle(o));
   super::thr::campaign(cfg, rep, "thr", n, 0xC15F, &mut |r: &mut Rng| super::thr::random_scen(r, 10), &|o, _| super::thr::finalize_oracle(o));
+  super::thr::systematic_families(cfg, rep, 0xC15B, &[27, 27, 27], &|_, _| {}, &|o, _| super::thr::finalize_behind_subscribe_on(o));
+  super::thr::campaign(cfg, rep, "thrso", cfg.n(6_000, 300_000), 0xC15C, &mut |r: &mut Rng| super::thr::random_scen(r, 27), &|o, _| super::thr::finalize_behind_subscribe_on(o));
 }
 
 #[derive(Clone, Copy, Debug, PartialEq, Eq, Hash)]
